@@ -57,6 +57,32 @@ CHECKS['C20'] = dict(
          'therefore "reports solvable exactly when a solution exists" is not decided by this check. Data bounds of the (unclaimed) solver groups: 10 variables, 25 constraints = the quantifier of C20.',
     technique='CBMC function contracts on extracted real code (dfcc; template instantiated by the extractor), SAT back end',
     design='4.11')
+CHECKS['C01'] = dict(
+    text='Partial, layered. Deductive proof (CBMC contracts) on the extracted text of bitBoard.hpp / moveGen.hpp / moveGen.cpp: layer 0 bit primitives (firstBit/lastBit/extractBit/bitCount generic variants, mirror, fill, pawn-attack masks, '
+         'distances, Square methods, getDirection+dirTable) for all 2^64 masks / all square pairs; the attack test sqAttacked<wtm> (both colours) and inCheck equal the rules-of-chess spec on a fully symbolic board; '
+         'the list helpers addMovesByMask/addPawnMovesByMask<wtm>/addPawnDoubleMovesByMask append exactly the moves of their mask (unbounded loops closed by loop contracts, ghost move monitor).',
+    note=TRUST + 'Assumed contracts: BitBoard::rookAttacks/bishopAttacks return the ray sets (magic lookup tables not proved), king/knight/pawn attack tables and squaresBetween equal their coordinate definitions (table initialisation not proved yet), '
+         'MoveList::addMove appends its move (A-MAXMOVES: capacity 256 never exceeded). NOT decided in the quick tier: isLegal (verdict proof did not finish in 50 min), removeIllegal, givesCheck, the four generators (checkEvasions contract written: '
+         'generated set == evasion candidates; see DESIGN for status). FEN text layer not covered.',
+    technique='CBMC function and loop contracts on extracted real code (dfcc), ghost move monitor, SAT back end',
+    design='4.1')
+CHECKS['C04'] = dict(
+    text='Lemmas only. Deductive proof (CBMC contracts) of the mate-score encoding chain on extracted real code: TTEntry::setScore/getScore ply shift exact for every ply pair, isCutOff rule for mate bounds, '
+         'internal score -> "mate N" conversion of Search::notifyPV (fragment), tablebase value -> score conversion of TBGenerator::probeDTM (fragment).',
+    note=TRUST + 'NOT decided: that an announced mate is real (needs the whole search: mate-distance pruning, null move, quiescence, aspiration re-searches).',
+    technique='CBMC function contracts on extracted real code and fragments (dfcc), SAT back end', design='4.3')
+CHECKS['C13'] = dict(
+    text='Lemmas only. Deductive proof (CBMC contracts) on extracted real code: the on-demand block of TBProbe::tbProbe (fragment) with rule50Margin/updateEvScore stores an exact mate score only if the mate completes within the '
+         '100 - halfmove-clock plies left, otherwise score 0 with the matching bound type; swindleScore range and sign; probeDTM and notifyPV conversions.',
+    note=TRUST + 'Assumed: the scores delivered by tt.probeDTM have the form proved for the probeDTM tail. NOT decided: how bounds are merged into the search, root move choice, shortest-mate play, Syzygy/Gaviota paths.',
+    technique='CBMC function contracts on extracted real code and fragments (dfcc), SAT back end', design='4.9')
+CHECKS['C18'] = dict(
+    text='Deductive proof (CBMC contracts) on extracted real code: PolyglotBook::getMove is total for all 2^16 codes (squares on the board, promotion piece of the mover), getPGMove/getMove inverse incl. king-takes-rook castling, '
+         'serialize/deSerialize byte layout, the binary search of Book::getBookEntries (fragment, loop contract: every index read is inside the file and the search terminates for any file contents), getWeight range, '
+         'and the selection part of Book::getBookMove (fragment): the result is the empty move or a stored move that was found in the legal move list; the "should never get here" assert is unreachable.',
+    note=TRUST + 'Assumed contracts: file read lambda, MoveGen legal list (C01), Random::nextInt in [0,n), ::sqrt non-negative with square <= x+1, getWeight deterministic (in the selection proof). Data bounds of the selection proof: 4 book entries, 16 legal moves. '
+         'Not decided: std::fstream behaviour, built-in book map, positive probability of every stored move.',
+    technique='CBMC function and loop contracts on extracted real code and fragments (dfcc), SAT back end', design='4.10')
 NOT_APPLICABLE = {
     'C01': 'planned (DESIGN 4.1) but not built yet in this round; no claim until its first layer is green',
     'C02': 'planned (DESIGN 4.2) but not built yet',
